@@ -1,4 +1,5 @@
 """C14 - logging: gate, line ownership, background-channel protocol, line assembly (DESIGN.md section 4, C14)."""
+import os
 from sa import rules as RU
 from sa.cfg import Typestate, dominators, ev_dominates
 from sa.extract import library_units
@@ -173,6 +174,56 @@ def _assignment_of(f, ev):
     return None
 
 
+def round7(ctx, R, P, lg, replace=None):
+    """GATE/macro-arguments: in the level gate of the AWS_LOGF macro every macro parameter stands parenthesised or as a whole
+    function argument: a level written as an expression (`verbose ? AWS_LL_TRACE : AWS_LL_DEBUG`) otherwise regroups with the
+    comparison and the gate is decided by something else than the level (a lint over the macro's definition - the only place
+    where this is visible; the expanded program of the library itself contains plain levels only).
+    GATE/subject-slot: register and unregister address the package table with the same function of their list: the slot is
+    the first subject id shifted right by the stride bits, in both."""
+    import re
+    rel = "include/aws/common/logging.h"
+    path = (replace or {}).get(rel) or os.path.join(ctx.ex.repo, rel)
+    txt = open(path).read() if os.path.isfile(path) else ""
+    m = re.search(r"#define\s+AWS_LOGF\(([^)]*)\)((?:[^\n]*\\\n)*[^\n]*)", txt)
+    if R.require(m is not None, "the AWS_LOGF macro was not found in %s" % rel):
+        params = [p_.strip() for p_ in m.group(1).split(",") if p_.strip() and p_.strip() != "..."]
+        body = m.group(2).replace("\\\n", " ")
+        g = re.search(r"\bif\s*\((.*?)\)\s*\{", body)
+        bad = []
+        if R.require(g is not None, "AWS_LOGF: the level gate (`if (...) {`) was not found"):
+            cond = g.group(1)
+            for p_ in params:
+                for mm in re.finditer(r"\b%s\b" % re.escape(p_), cond):
+                    pre = cond[:mm.start()].rstrip()[-1:] or "("
+                    post = cond[mm.end():].lstrip()[:1] or ")"
+                    if not (pre in "(," and post in "),"):
+                        bad.append("%s in `...%s...`" % (p_, cond[max(0, mm.start() - 12):mm.end() + 12].strip()))
+            R.check(not bad, "GATE", "macro-gate-arguments-parenthesised", "%s: AWS_LOGF" % rel, "every macro parameter in the gate is parenthesised or a whole call argument",
+                    "the gate of AWS_LOGF uses a macro parameter bare (%s): with a level written as an expression of lower precedence the comparison regroups and lines above the logger's level are emitted" % bad)
+    shapes = {}
+    for nm in ("aws_register_log_subject_info_list", "aws_unregister_log_subject_info_list"):
+        f = lg.get(nm)
+        if not R.require(f is not None, "%s not found" % nm):
+            continue
+        st_ = []
+        for b in f.blocks.values():
+            for el in b.elems:
+                if el["k"] == "bin" and el["op"] == "=" and (f.d(el["a"][0]) or {}).get("k") == "index" and "s_log_subject_slots" in f.show(f.d(el["a"][0])):
+                    ix = RU.uncast(f, f.d(el["a"][0])["a"][1])
+                    o = RU.origin(f, ix) if ix is not None else None
+                    o = RU.uncast(f, o) if o is not None else ix
+                    ok_shift = o is not None and o["k"] == "bin" and o["op"] == ">>" and f.is_const(RU.uncast(f, o["a"][1])) is not None
+                    src = f.show(RU.uncast(f, RU.origin(f, o["a"][0]) or o["a"][0]), alias=True) if ok_shift else f.show(o) if o is not None else "?"
+                    st_.append((ok_shift, f.is_const(RU.uncast(f, o["a"][1])) if ok_shift else None, src))
+        shapes[nm] = st_
+        R.check(len(st_) == 1 and st_[0][0] and "subject_list[0].subject_id" in st_[0][2].replace(" ", ""), "GATE", "subject-slot:%s" % nm, "%s()" % nm, "slot = first subject id >> stride bits",
+                "%s stores into s_log_subject_slots at %s, not at (first subject id >> stride bits): another package's slot is overwritten / cleared" % (nm, [x[2] for x in st_]))
+    if len(shapes) == 2 and all(len(v) == 1 for v in shapes.values()):
+        a_, b_ = shapes["aws_register_log_subject_info_list"][0], shapes["aws_unregister_log_subject_info_list"][0]
+        R.check(a_[1] == b_[1], "GATE", "subject-slot:register-and-unregister-agree", LG, "both use the same stride")
+
+
 def analyse(ctx, replace=None, only=None):
     R = ctx.R
     units = [u for u in library_units(ctx.ex.repo) if "external" not in u]
@@ -195,6 +246,7 @@ def analyse(ctx, replace=None, only=None):
     vtables_complete(R, P)
     send_contract(R, P)
     subject_bounds(R, P)
+    round7(ctx, R, P, lg, replace)
     ownership(R, ch, lg)
     background(R, ch)
     from rules import C14_line
@@ -629,6 +681,8 @@ def background(R, ch):
 
 
 MUTANTS = [
+    {"name": "logf-gate-with-a-bare-level-argument", "file": "include/aws/common/logging.h", "expect": "GATE", "old": "logger->vtable->get_log_level(logger, (subject)) >= (log_level)) {", "new": "log_level <= logger->vtable->get_log_level(logger, (subject))) {"},
+    {"name": "unregister-clears-the-slot-of-the-offset", "file": LG, "expect": "GATE", "old": "    const uint32_t slot_index = min_range >> AWS_LOG_SUBJECT_STRIDE_BITS;\n\n    if (slot_index >= AWS_PACKAGE_SLOTS) {\n        /* This is an NDEBUG build apparently. Kill the process rather than\n         * corrupting heap. */\n        fprintf(stderr, \"Bad log subject slot index 0x%016x\\n\", slot_index);\n        AWS_FATAL_ASSERT(false);\n    }\n\n    s_log_subject_slots[slot_index] = NULL;", "new": "    const uint32_t slot_index = min_range & ((1U << AWS_LOG_SUBJECT_STRIDE_BITS) - 1);\n\n    s_log_subject_slots[slot_index] = NULL;"},
     {"name": "gate-strict", "file": LG, "expect": "GATE",
      "old": "get_log_level(s_root_logger_ptr, subject) < level", "new": "get_log_level(s_root_logger_ptr, subject) <= level"},
     {"name": "failed-send-leaks-line", "file": LG, "expect": "OWNERSHIP",
